@@ -125,6 +125,11 @@ CHECKS = {
         technique="TLA+ register-file execution of allocated blocks (RegAlloc.tla: the register file remembers which value each register holds) evaluated by TLC on the assignments produced by the real allocators",
         text="Seeded single-block functions are allocated by the real RegisterAllocatorLivenessBlockNaive (RISC-V li/add/sub/mul/mv, pre-allocated arguments and results, zero constants, pools of 1-6 registers with and without infinite registers) and by BlockNaiveAllocator on test.allocatable ops with in/out/inout constraints; TLC executes each allocated block on a value-tracking register file: every operand must still be in its register when read, results of one op are in distinct registers, in/out pairs share a register, pre-assigned registers are kept, new registers come from the allocatable pool, only constant zero lives in `zero`.",
         note="Trusted: RegAlloc.tla; extraction of in/out/inout constraints through get_register_constraints(); generated inputs satisfy the allocator's documented precondition (an inout operand is used for the last time there; no conflicting pre-assignments). OutOfRegisters/diagnostics are reported failures. riscv_scf.for nests and the x86 allocator are not generated yet."),
+    "C18": dict(
+        category="model_checking", design_ref="DESIGN.md §4 C18, §11.9",
+        technique="TLA+ transcription of the pipeline lexer (ordered rule list, lazy), recursive-descent parser, printer and typed option conversion (PipelineSpec.tla): TLC checks print-then-parse identity over a bounded value universe and diagnostic-totality over every short text; the real printer / parser / from_spec / spec() are run on generated passes, ArgSpecs and texts and TLC judges the recorded results against the model and the property's clauses",
+        text="TLC checks on the model that each of 220k ArgSpecs (strings over a 15-character alphabet with quotes, backslashes, separators, newline, tab, non-ASCII; booleans; integers; plain and exponent-form floats; 1-2 parameters, 0-2 values) prints to a text that parses back to it, must refute the claim for values without textual form (negative control), and that every text over a 20-character alphabet up to length 4 (thorough: 5) lexes into tiling tokens and ends in a result or a diagnostic. Conformance: every registered pass (133) and ten synthetic pass classes covering the documented option types get generated option values (ints to 10^20, boundary/random-bit floats, strings with special characters, tuples, None, literals) and are taken through spec() -> str -> parse_pipeline -> from_spec -> str; generated ArgSpec pipelines likewise; every text over the alphabet up to length 3 (thorough: 4), mutated printed specs, random token sequences and malformed option lists are parsed for real. TLC evaluates RoundTrip (Python ==), ReprintStable and FailsOnlyWithDiagnostics on the recorded data and compares every real result with the model's (divergence).",
+        note="Trusted: PipelineSpec.tla as transcription (kept honest by the zero-divergence requirement reported in the evidence); the decimal->binary64 rounding table computed with exact rationals in the harness (TLC has no floats); equality of passes is Python's ==. Lone surrogates are not generated. Four defects repaired, three open findings (inf/nan, \\r \\f \\v in strings, () in an optional tuple field); each case touching an open finding has a twin without the offending value that is judged separately."),
 }
 
 NOT_APPLICABLE = {
@@ -132,7 +137,6 @@ NOT_APPLICABLE = {
     "C06": "bit-exact literal round-trip incl. IEEE-754 payloads and Unicode strings: TLC has neither floats nor character-level strings (DESIGN §5)",
     "C07": "parser robustness on arbitrary text and time proportional to input: a property of byte strings and wall-clock time, i.e. fuzzing, not model checking (DESIGN §5)",
     "C08": "==/hash laws of attribute values with float payloads (signed zeros, NaN bit patterns): algebraic laws of Python value objects, no state to model, no floats in TLC (DESIGN §5)",
-    "C18": "pass-pipeline option strings round-trip: a text codec over arbitrary characters and float reprs; same reason as C06/C07 (DESIGN §5)",
 }
 
 
